@@ -32,6 +32,8 @@ enum Act {
     Command(usize, i64),
     /// the remote reads every frame it can get
     RemoteRead,
+    /// these consumers go away together (both halves of their channels are dropped)
+    Drop(Vec<usize>),
 }
 
 #[derive(Clone, Debug, PartialEq)]
@@ -69,8 +71,8 @@ enum ConsumerTx {
 }
 
 struct Consumer {
-    rx: ConsumerRx,
-    tx: ConsumerTx,
+    rx: Option<ConsumerRx>,
+    tx: Option<ConsumerTx>,
     seen: Vec<Note>,
 }
 
@@ -131,8 +133,8 @@ async fn run_case(map: bool, acts: &[Act], socket_buffer: usize) -> Outcome {
                     continue;
                 }
                 consumers.push(Consumer {
-                    rx: if map { ConsumerRx::Map(FramedRead::new(n_rx, Default::default())) } else { ConsumerRx::Value(FramedRead::new(n_rx, Default::default())) },
-                    tx: if map { ConsumerTx::Map(FramedWrite::new(c_tx, Default::default())) } else { ConsumerTx::Value(FramedWrite::new(c_tx, Default::default())) },
+                    rx: Some(if map { ConsumerRx::Map(FramedRead::new(n_rx, Default::default())) } else { ConsumerRx::Value(FramedRead::new(n_rx, Default::default())) }),
+                    tx: Some(if map { ConsumerTx::Map(FramedWrite::new(c_tx, Default::default())) } else { ConsumerTx::Value(FramedWrite::new(c_tx, Default::default())) }),
                     seen: vec![],
                 });
                 wevs.push(format!("WProducer {}", sync));
@@ -155,8 +157,9 @@ async fn run_case(map: bool, acts: &[Act], socket_buffer: usize) -> Outcome {
             Act::Command(c, n) => {
                 if let Some(k) = consumers.get_mut(*c) {
                     let ok = match &mut k.tx {
-                        ConsumerTx::Value(tx) => tx.send(DownlinkOperation { body: *n }).await.is_ok(),
-                        ConsumerTx::Map(tx) => tx.send(MapOperation::Update { key: n.rem_euclid(3), value: *n }).await.is_ok(),
+                        Some(ConsumerTx::Value(tx)) => tx.send(DownlinkOperation { body: *n }).await.is_ok(),
+                        Some(ConsumerTx::Map(tx)) => tx.send(MapOperation::Update { key: n.rem_euclid(3), value: *n }).await.is_ok(),
+                        None => false,
                     };
                     if ok {
                         wevs.push(format!("WCommand ({})%Z", n));
@@ -164,6 +167,14 @@ async fn run_case(map: bool, acts: &[Act], socket_buffer: usize) -> Outcome {
                 }
             }
             Act::RemoteRead => {}
+            Act::Drop(cs) => {
+                for c in cs {
+                    if let Some(k) = consumers.get_mut(*c) {
+                        k.rx = None;
+                        k.tx = None;
+                    }
+                }
+            }
         }
         settle().await;
         if matches!(act, Act::RemoteRead) {
@@ -214,7 +225,8 @@ async fn run_case(map: bool, acts: &[Act], socket_buffer: usize) -> Outcome {
         for k in consumers.iter_mut() {
             loop {
                 let next: Option<Option<Result<Note, String>>> = match &mut k.rx {
-                    ConsumerRx::Value(rx) => rx.next().now_or_never().map(|o| {
+                    None => None,
+                    Some(ConsumerRx::Value(rx)) => rx.next().now_or_never().map(|o| {
                         o.map(|r| {
                             r.map(|n| match n {
                                 DownlinkNotification::Linked => Note::Linked,
@@ -225,7 +237,7 @@ async fn run_case(map: bool, acts: &[Act], socket_buffer: usize) -> Outcome {
                             .map_err(|e| format!("{:?}", e))
                         })
                     }),
-                    ConsumerRx::Map(rx) => rx.next().now_or_never().map(|o| {
+                    Some(ConsumerRx::Map(rx)) => rx.next().now_or_never().map(|o| {
                         o.map(|r| {
                             r.map(|n| match n {
                                 DownlinkNotification::Linked => Note::Linked,
@@ -293,6 +305,7 @@ fn main() {
         let mut next_cmd = 500i64;
         let mut linked = false;
         let mut unlinked = false;
+        let mut dropped: Vec<usize> = vec![];
         for _ in 0..n {
             let pick = rng.below(12);
             match pick {
@@ -309,11 +322,21 @@ fn main() {
                     acts.push(Act::Remote(RMsg::Event(next_event)));
                 }
                 6 if linked && !unlinked => acts.push(Act::Remote(RMsg::Synced)),
-                7 | 8 if attached > 0 => {
+                7 | 8 if attached > dropped.len() => {
                     next_cmd += 1;
-                    acts.push(Act::Command(rng.usize_below(attached), next_cmd));
+                    let live: Vec<usize> = (0..attached).filter(|c| !dropped.contains(c)).collect();
+                    acts.push(Act::Command(*rng.pick(&live), next_cmd));
                 }
                 9 => acts.push(Act::RemoteRead),
+                11 if attached >= 2 && rng.below(2) == 0 => {
+                    // one to three consumers go away at the same moment
+                    let mut cs: Vec<usize> = (0..attached).filter(|c| !dropped.contains(c) && rng.below(2) == 0).collect();
+                    cs.truncate(3);
+                    if !cs.is_empty() {
+                        dropped.extend(cs.iter().cloned());
+                        acts.push(Act::Drop(cs));
+                    }
+                }
                 10 if linked && !unlinked && rng.below(4) == 0 => {
                     acts.push(Act::Remote(RMsg::Unlinked));
                     unlinked = true;
@@ -368,6 +391,12 @@ fn main() {
             *kinds.entry("late_joiner".into()).or_default() += 1;
             nontrivial += 1;
         }
+        if !dropped.is_empty() {
+            *kinds.entry("consumers_dropped".into()).or_default() += 1;
+        }
+        if acts.iter().any(|a| matches!(a, Act::Drop(cs) if cs.len() >= 2)) {
+            *kinds.entry("two_or_more_dropped_together".into()).or_default() += 1;
+        }
         let mut cid = 0usize;
         let revs: Vec<String> = acts
             .iter()
@@ -394,10 +423,11 @@ fn main() {
             })
             .collect();
         let term = format!(
-            "{{| dc_single := {}; dc_revs := {}; dc_seen := {}; dc_wevs := {}; dc_frames := {}; dc_check_frames := {}; dc_drained := {} |}}",
+            "{{| dc_single := {}; dc_revs := {}; dc_seen := {}; dc_dropped := {}; dc_wevs := {}; dc_frames := {}; dc_check_frames := {}; dc_drained := {} |}}",
             !map,
             coq_list(revs),
             coq_list(out.seen.iter().enumerate().map(|(c, l)| format!("({}, {})", c, coq_list(l.iter().map(coq_note))))),
+            coq_list(dropped.iter().map(|c| c.to_string())),
             coq_list(out.wevs.iter().cloned()),
             coq_list(frames),
             !slow_socket && !map && !acts.iter().any(|a| matches!(a, Act::Remote(RMsg::Unlinked))),
@@ -415,7 +445,7 @@ fn main() {
     let meta = J::obj(vec![
         ("evaluations", J::I(w.len() as i128)),
         ("distinct_nontrivial", J::I(nontrivial as i128)),
-        ("rule", J::s("sessions of 4-16 actions against the real ValueDownlinkRuntime (two thirds) / MapDownlinkRuntime: up to four consumers attach at generated moments with or without SYNC, the simulated remote sends linked / events / synced / unlinked at generated moments, consumers send commands, the remote reads the socket either at once or (value, a quarter of the cases, 48 byte socket buffer) only now and then; what every consumer was told must be what the model's read task produces; what the remote received must be what the model's write task sends (attentive remote) and always satisfy the oracle (link first, commands a subsequence in order, sessions well formed, events in order); non-trivial = a consumer joined after the link was up")),
+        ("rule", J::s("sessions of 4-16 actions against the real ValueDownlinkRuntime (two thirds) / MapDownlinkRuntime: up to four consumers attach at generated moments with or without SYNC, one to three of them go away together at generated moments (what a consumer that went away had seen must be a prefix of its session; the others' sessions must be unaffected), the simulated remote sends linked / events / synced / unlinked at generated moments, consumers send commands, the remote reads the socket either at once or (value, a quarter of the cases, 48 byte socket buffer) only now and then; what every consumer was told must be what the model's read task produces; what the remote received must be what the model's write task sends (attentive remote) and always satisfy the oracle (link first, commands a subsequence in order, sessions well formed, events in order); non-trivial = a consumer joined after the link was up")),
         ("structures", J::counts(&kinds)),
         ("samples", J::A(samples)),
         ("direct_failures", J::A(failures.iter().take(40).map(|f| J::s(f.chars().take(600).collect::<String>())).collect())),
